@@ -327,7 +327,7 @@ impl<'a> World<'a> {
                         if let Some(par) = p.parent() {
                             let _ = std::fs::create_dir_all(par);
                         }
-                        let _ = std::fs::write(&p, op["content"].as_str().unwrap_or(""));
+                        let _ = std::fs::write(&p, edit_bytes(op));
                     }
                     "delete" => {
                         let _ = std::fs::remove_file(&p);
@@ -505,12 +505,43 @@ impl<'a> World<'a> {
         run.done.push(op.clone());
     }
 }
+/// content of a harness edit: "content" (text), "bytes" (any bytes) or "big": {"len", "salt"} (generated)
+fn edit_bytes(op: &Value) -> Vec<u8> {
+    if let Some(b) = op.get("bytes").and_then(|b| b.as_array()) {
+        return b.iter().map(|x| x.as_u64().unwrap_or(0) as u8).collect();
+    }
+    if let Some(g) = op.get("big") {
+        return big_bytes(g["len"].as_u64().unwrap_or(0) as usize, g["salt"].as_u64().unwrap_or(0));
+    }
+    op["content"].as_str().unwrap_or("").as_bytes().to_vec()
+}
+/// every byte value, no pattern shorter than the buffer sizes in use
+fn big_bytes(len: usize, salt: u64) -> Vec<u8> {
+    let mut r = Rng::new(salt ^ 0x9e37_79b9_7f4a_7c15);
+    let mut v = Vec::with_capacity(len);
+    while v.len() < len {
+        v.extend_from_slice(&r.next().to_le_bytes());
+    }
+    v.truncate(len);
+    v
+}
+/// contents that are not a line of text: empty, binary (NUL, invalid UTF-8, every class of byte), CRLF, no final newline
+fn odd_content(r: &mut Rng) -> Vec<u8> {
+    match r.below(5) {
+        0 => vec![],
+        1 => vec![0, 255, 254, 0xc3, 0x28, 10, 13, 0, 0x80, 0x7f, 0xe2, 0x82, 0xac, 27, 9],
+        2 => b"line1\r\nline2\r\n".to_vec(),
+        3 => b"no newline at the end".to_vec(),
+        _ => (0..=255u8).rev().collect(),
+    }
+}
 fn show_list(l: &[Comps]) -> String {
     l.iter().map(show_comps).collect::<Vec<_>>().join(", ")
 }
 fn desc(b: Option<&Vec<u8>>) -> String {
     match b {
         None => "absent".into(),
+        Some(b) if b.len() > 120 => format!("{} bytes starting {:?}", b.len(), String::from_utf8_lossy(&b[..60])),
         Some(b) => format!("{:?}", String::from_utf8_lossy(b)),
     }
 }
@@ -664,6 +695,12 @@ fn gen_init(r: &mut Rng) -> Listing {
     for p in FILES.iter().take(N_EXISTING) {
         if r.chance(2, 3) {
             put_file(&mut l, p, &format!("{p} v0\n"));
+            if r.chance(1, 6) {
+                let c: Comps = p.split('/').map(|s| s.as_bytes().to_vec()).collect();
+                if let Some(Node::File(b)) = l.get_mut(&c) {
+                    *b = odd_content(r);
+                }
+            }
         }
     }
     // siblings of targets (existing or not yet existing) under the suffix / prefix variants
@@ -734,6 +771,9 @@ fn gen_op(r: &mut Rng, root: &std::path::Path, n_cks: usize, step: u64) -> Value
             "delete" if !files.is_empty() => r.pick(&files).clone(),
             _ => p.to_string(),
         };
+        if how == "write" && r.chance(1, 5) {
+            return json!({"op": "edit", "how": how, "path": path, "bytes": odd_content(r)});
+        }
         return json!({"op": "edit", "how": how, "path": path, "content": format!("{path} v{step}\n")});
     }
     // tools through the ToolRunner (auto checkpoint); most of them followed by the undo-by-effect check
@@ -854,6 +894,35 @@ fn systematic(seed: u64, per_deco: usize) -> Vec<Value> {
     v
 }
 
+/// ORACLE-ONLY histories (not replayed in Coq: the contents are too big for a term) with large binary files: sizes
+/// around the buffer sizes a copy loop would use and well above them; checkpoint, overwrite / truncate / append through
+/// the tools and the harness, undo, rewind - "exactly the bytes" for contents that are not a line of text
+fn big_cases(seed: u64, thorough: bool) -> Vec<Value> {
+    let sizes: &[u64] = if thorough { &[4095, 4096, 4097, 8192, 65535, 65536, 65537, 131073, 1048576, 1048577, 5 * 1048576 + 11] } else { &[4097, 65536, 65537, 1048577, 3 * 1048576 + 11] };
+    let mut v = vec![];
+    for (i, len) in sizes.iter().enumerate() {
+        let salt = seed.wrapping_mul(31).wrapping_add(i as u64);
+        v.push(json!({"cwd": (i % 3) as u64, "nocoq": true, "init": {"a.txt": "small\n", "d": "<dir>"},
+            "big": [{"path": "big.bin", "len": len, "salt": salt}, {"path": "d/big2.bin", "len": len / 2 + 1, "salt": salt + 1000}],
+            "ops": [
+                {"op": "create", "raws": ["big.bin", "d/big2.bin", "a.txt"]},
+                {"op": "edit", "how": "write", "path": "big.bin", "big": {"len": len + 1, "salt": salt + 1}},
+                {"op": "edit", "how": "write", "path": "d/big2.bin", "content": "truncated\n"},
+                {"op": "create_runner", "raws": ["{ROOT}/big.bin"]},
+                {"op": "rewind", "idx": 0},
+                {"op": "tool", "name": "write", "args": {"path": "big.bin", "content": "appended\n", "append": true}, "undo": true},
+                {"op": "tool", "name": "write", "args": {"path": "d/big2.bin", "content": "replaced\n"}, "undo": true, "undo_runner": true},
+                {"op": "edit", "how": "delete", "path": "big.bin"},
+                {"op": "rewind_runner", "idx": 1},
+                {"op": "rewind", "idx": 0},
+                {"op": "tamper", "idx": 0, "which": 0, "how": "append", "content": "x"},
+                {"op": "edit", "how": "write", "path": "big.bin", "bytes": [0, 1, 2]},
+                {"op": "rewind", "idx": 0}
+            ]}));
+    }
+    v
+}
+
 fn run_case(rt: &tokio::runtime::Runtime, case: &Value) -> Value {
     let cwd = case["cwd"].as_u64().unwrap_or(0);
     let mut r = Rng::new(case["seed"].as_u64().unwrap_or(1));
@@ -861,6 +930,16 @@ fn run_case(rt: &tokio::runtime::Runtime, case: &Value) -> Value {
         Some(v) if v.is_object() => listing_from_json(v),
         _ => gen_init(&mut r),
     };
+    let mut init = init;
+    if let Some(bigs) = case.get("big").and_then(|b| b.as_array()) {
+        for b in bigs {
+            let c: Comps = b["path"].as_str().unwrap_or("big.bin").split('/').map(|s| s.as_bytes().to_vec()).collect();
+            for i in 1..c.len() {
+                init.insert(c[..i].to_vec(), Node::Dir);
+            }
+            init.insert(c, Node::File(big_bytes(b["len"].as_u64().unwrap_or(0) as usize, b["salt"].as_u64().unwrap_or(0))));
+        }
+    }
     let sbx = Sandbox::new("c14", &init);
     let ws = Workspace::new(&sbx.root).expect("workspace");
     let hook = ripd::verif::workspace_checkpoint_hook(sbx.root.clone()).expect("hook");
@@ -883,9 +962,22 @@ fn run_case(rt: &tokio::runtime::Runtime, case: &Value) -> Value {
         }
     }
     let _ = std::env::set_current_dir("/");
-    let coq = format!("{{| c_root := {}; c_init := {}; c_ops := [{}] |}}", coq_str(&root_s), coq_fs_cp(&init_listing), run.coq_ops.join("; "));
+    let nocoq = case["nocoq"].as_bool().unwrap_or(false);
+    let coq = if nocoq { String::new() } else { format!("{{| c_root := {}; c_init := {}; c_ops := [{}] |}}", coq_str(&root_s), coq_fs_cp(&init_listing), run.coq_ops.join("; ")) };
+    // generated big files stay a specification in the replay
+    let mut small_init = init_listing.clone();
+    let mut replay = json!({"cwd": cwd, "ops": run.done});
+    if let Some(bigs) = case.get("big").and_then(|b| b.as_array()) {
+        for b in bigs {
+            let c: Comps = b["path"].as_str().unwrap_or("big.bin").split('/').map(|s| s.as_bytes().to_vec()).collect();
+            small_init.remove(&c);
+        }
+        replay["big"] = json!(bigs);
+        replay["nocoq"] = json!(true);
+    }
+    replay["init"] = listing_json(&small_init);
     json!({"coq": coq, "viol": run.viol.iter().map(|(w, c)| json!({"what": w, "class": c})).collect::<Vec<_>>(), "stats": run.stats,
-           "replay": {"cwd": cwd, "init": listing_json(&init_listing), "ops": run.done}, "n_cks": w.cks.len()})
+           "replay": replay, "n_cks": w.cks.len()})
 }
 
 /// delta-debug the history of a failing generated case: fewest operations that still show the same class
@@ -987,6 +1079,7 @@ fn main() {
     };
     if a.replay.is_none() {
         jobs.extend(systematic(a.seed, if a.thorough() { 0 } else { 12 }));
+        jobs.extend(big_cases(a.seed, a.thorough()));
         for _ in 0..n {
             jobs.push(json!({"seed": r.next(), "cwd": r.below(3), "n_ops": r.range(3, 10)}));
         }
@@ -1012,7 +1105,7 @@ fn main() {
         for v in o["viol"].as_array().cloned().unwrap_or_default() {
             res.oracle_violations.push(OracleViolation { case_id: i as i64, what: v["what"].as_str().unwrap_or("").into(), class: v["class"].as_str().unwrap_or("").into(), replay: replay.clone() });
         }
-        if !a.oracle_only() {
+        if !a.oracle_only() && !j["nocoq"].as_bool().unwrap_or(false) {
             let id = w.push(o["coq"].as_str().unwrap_or("").to_string());
             if res.case_index.len() < 1500 {
                 res.case_index.insert(id.to_string(), replay.clone());
